@@ -429,7 +429,7 @@ def check(prop: str) -> int:
             jobs.append(("client", inp, outp, cmds))
         jobs += random_jobs(rnd, 1500 if tier == "quick" else 15000)
         ctx = multiprocessing.get_context("fork")
-        with ctx.Pool(16) as pool:
+        with ctx.Pool(16, initializer=common.limit_worker) as pool:
             runs = pool.map(run_commands, jobs, chunksize=64)
         verdicts, states = judge(runs, workdir, 12)
         rep.cov["states"] += states
